@@ -104,12 +104,30 @@ def dominated(chk, P, fname, unit, targets, fact, rule, what, min_inst=1, track_
 
 
 def unreachable_under(chk, P, fname, unit, envs, callee, rule, construct, detail, split=None):
-    """no call of `callee` in function fname is reachable under any of the seeded environments (seeded constant
-    propagation over the CFG; only the seeded keys are tracked, every other test is explored both ways)"""
+    """no call of `callee` is reachable from function fname -- in fname itself or in a helper it calls -- under any of the
+    seeded environments (seeded constant propagation over the CFG; only the seeded keys are tracked, every other test is
+    explored both ways; seeded object fields travel into helpers)"""
     import peval
     f = P.need_func(fname, unit)
-    targets = set(c["id"] for c in f.calls(callee))
-    if not chk.need(bool(targets), "%s: %s no longer calls %s" % (rule, fname, callee)):
+    # targets: calls of `callee` in fname, or of a helper of the same unit (not fname itself: recursion on other objects) that
+    # reaches `callee`; such a helper is what a refactoring extracts the removal code into
+    def reaches(h, seen):
+        for c in h.calls():
+            if c.get("fn") == callee:
+                return True
+            g2 = P.func(c.get("fn")) if c.get("fn") else None
+            if g2 is not None and g2.entry is not None and g2.name not in seen and g2.name != f.name and g2.unit is f.unit:
+                seen.add(g2.name)
+                if reaches(g2, seen):
+                    return True
+        return False
+    tnames = {callee}
+    for c in f.calls():
+        g2 = P.func(c.get("fn")) if c.get("fn") else None
+        if g2 is not None and g2.entry is not None and g2.name != f.name and g2.unit is f.unit and reaches(g2, {g2.name}):
+            tnames.add(g2.name)
+    targets = set(c["id"] for c in f.calls(tuple(tnames)))
+    if not chk.need(bool(targets), "%s: %s no longer reaches a call of %s" % (rule, fname, callee)):
         return 0
     hit = []
     def obs(n, env):
@@ -126,62 +144,20 @@ def unreachable_under(chk, P, fname, unit, envs, callee, rule, construct, detail
     why = detail
     if hit:
         n, env = hit[0]
-        why += " -- but %s() at %s is reachable with %s" % (callee, f.loc(n), {k: v for k, v in env.items() if k in track})
-    chk.inst(rule, f, construct, ok, why, loc=f.loc(f.nodes[sorted(targets)[0]]))
+        why += " -- but %s() at line %s is reachable with %s" % (n.get("fn"), n.get("l"), {k: v for k, v in env.items() if k in track})
+    chk.inst(rule, f, construct, ok, why)
     return 1
 
 
-class _PendingFlow(Flow):
-    def __init__(self, f, acq, rel):
-        Flow.__init__(self, f)
-        self.acq, self.rel = acq, rel
-        self.at_return = {}
-
-    def init(self):
-        return False
-
-    def join(self, a, b):
-        return a or b
-
-    def elem(self, st, n):
-        if self.rel(n):
-            return False
-        if self.acq(n):
-            return True
-        if n["k"] == "Return" and self.recording:
-            self.at_return[n["id"]] = st
-        return st
-
-
-def bit_op(n, field, bit, setting):
-    """is node n `X->field |= bit` (setting) / `X->field &= ~bit` (clearing)?  bit: integer value"""
-    a = assigned(n)
-    if not a or a[2] is None:
-        return False
-    t = strip(a[0])
-    if t["k"] != "Member" or t["f"] != field:
-        return False
-    v = cval(strip(a[2]))
-    if v is None:
-        return False
-    if setting:
-        return a[1] == "|=" and (v & bit) != 0
-    return a[1] == "&=" and (v & bit) == 0 and (~v & bit) != 0
-
-
-def released_on_all_exits(chk, P, fname, unit, acq, rel, rule, construct, detail):
-    """pairing: once acq(node) has happened, every return of the function is preceded by rel(node) (may-dataflow)"""
-    f = P.need_func(fname, unit)
-    if not chk.need(any(acq(n) for n in f.walk()), "%s: the acquire statement vanished from %s" % (rule, fname)):
-        return 0
-    fl = _PendingFlow(f, acq, rel)
-    fl.run()
-    n = 0
-    for r in returns(f):
-        if r["id"] not in fl.at_return:
+def functions_calling(P, unit, callee, member_arg=True):
+    """functions of the unit that call `callee` with a struct member as first argument"""
+    out = []
+    for f in P.unit(unit).funcs(only_main=True):
+        if f.entry is None:
             continue
-        n += 1
-        pend = fl.at_return[r["id"]]
-        k = sum(1 for r2 in returns(f) if (r2.get("l", 0), r2["id"]) <= (r.get("l", 0), r["id"]))
-        chk.inst(rule, f, "%s:return#%d" % (construct, k), not pend, detail + ("" if not pend else " -- this return is reachable with it still set"), loc=f.loc(r))
-    return n
+        for c in f.calls(callee):
+            a0 = strip(args(c)[0]) if args(c) else None
+            if not member_arg or (a0 is not None and a0["k"] == "Member"):
+                out.append(f)
+                break
+    return out
